@@ -143,6 +143,33 @@ func (p *Prog) scanType(holder types.Type, t types.Type, depth int) {
 	}
 }
 
+// offsetsOf: slot offsets at which a value of type t occurs by value inside a
+// value of type h (t itself at offset 0).
+func (p *Prog) offsetsOf(h, t types.Type, base, depth int) []int {
+	if depth > 5 {
+		return nil
+	}
+	if types.Identical(types.Unalias(h), types.Unalias(t)) {
+		return []int{base}
+	}
+	var out []int
+	switch u := h.Underlying().(type) {
+	case *types.Struct:
+		off := base
+		for i := 0; i < u.NumFields(); i++ {
+			ft := u.Field(i).Type()
+			out = append(out, p.offsetsOf(ft, t, off, depth+1)...)
+			off += p.lay.size(ft)
+		}
+	case *types.Array:
+		es := p.lay.size(u.Elem())
+		for i := 0; i < int(u.Len()) && i < 16; i++ {
+			out = append(out, p.offsetsOf(u.Elem(), t, base+i*es, depth+1)...)
+		}
+	}
+	return out
+}
+
 // holderTypes: every type whose objects may contain a T by value (T itself,
 // direct and transitive holders); nil when unknown or too many.
 func (p *Prog) holderTypes(t types.Type) []types.Type {
